@@ -181,6 +181,15 @@ fn typed_sources() -> Vec<&'static str> {
         "1", "1.5", "\"s\"", "true", "(1, 2)", "()", "", "a", "a = 1", "a = 1; a", "a += 1; a", "x = 2.5; x", "1 +", "(", "\"", "1 2",
         "f(1)", "min(1, 2)", "str::from(1)", "1 / 0", "a; b", "1,", ";", "9223372036854775807 + 1", "1 == 1.0", "2 ^ 2", "typeof(())",
         "len(\"abc\")", "n = 1; n", "x = (1, 2); x", "b = true; b &&= false; b", "/* c */ 1", "1 // c", "&", "a b c", "nope()", "1 = 2",
+        // boundary literals, alone (a shortcut for plain literals must agree with the tokenizer)
+        "9223372036854775807", "-9223372036854775807", "9223372036854775808", "-9223372036854775808", " -9223372036854775808 ",
+        "0x7fffffffffffffff", "0x8000000000000000", "-0", "007", "+7", "0x1F", "1e3", "-1e3", ".5", "5.", "inf", "-inf", "nan", "true", " true ",
+        "1_000", "١٢٣", "0b1",
+        // assignment targets that are not bare identifiers (unclaimed for the tree shape, but all
+        // entry points must still agree with each other)
+        "\"a\" = 3; a", "(\"a\") = 3", "\"a\" + \"b\" = 3", "\"z\" += 1", "(a) = 1", "f(1) = 2", "1 + a = 3", "a = b += 1",
+        // context-free calls after a failed assigning call must start from a fresh context
+        "q = 5; q / 0", "q", "q = 2.5; q * 2.0",
     ]
 }
 
@@ -211,7 +220,21 @@ pub fn run(rep: &Report) {
     let depth = rep.tier.pick(4u32, 7);
     common::random_search(rep, "programs", 120, n, &move || programs::arb_program(depth), &|p: &Program, l| {
         l.sample(3, || json!({"src": vcore::clip(&p.src, 120), "ctx": p.ctx.describe()}));
-        check_program(p, l)
+        check_program(p, l)?;
+        // the same program with its first assignment target written as a string literal
+        // (`"a" = ...`): outside the claimed tree shapes, inside C12's quantifier (all strings)
+        if let Some(pos) = p.src.find(" = ") {
+            let head = &p.src[..pos];
+            if let Some(start) = head.rfind(|c: char| !(c.is_alphanumeric() || c == '_')).map(|i| i + 1).or(Some(0)) {
+                let name = &head[start..];
+                if !name.is_empty() && name.chars().all(|c| c.is_ascii_alphabetic()) {
+                    let src = format!("{}\"{}\"{}", &p.src[..start], name, &p.src[pos..]);
+                    l.label("variant: string literal as assignment target");
+                    return check_program(&Program { family: "string-target", src, ast: None, ctx: p.ctx.clone() }, l);
+                }
+            }
+        }
+        Ok(())
     });
 }
 
